@@ -135,11 +135,11 @@ impl Check for C18 {
         "fault_enumeration"
     }
     fn rule(&self) -> String {
-        "scenarios as in C02 (front-end x pre-state x operation x value size x auto_sync), sampled by seed; per scenario the operation is run fault-free, then once per (filesystem call issued inside the library call, errno plausible for that call kind: EIO, EACCES, EMFILE, ENFILE, ENOMEM, ESTALE, ENOSPC, EDQUOT, EINTR, EPERM, EROFS, EXDEV, EMLINK as applicable) with exactly that call failing and the operation left to continue. Oracle: Err, or Ok with the effect achieved (after set a fresh lookup returns exactly the new value; after put the key is present; a miss / false only if the key is absent or the errno is ENOENT/ESTALE; ensure's value is stored), no panic other than the documented failed-flush one, tree valid in the C02 sense, no temp file left in .kismet_temp (unless the failing call was its unlink), the re-issued operation and a follow-up battery by fresh processes succeed. evaluations = scenarios; counters give faulted runs; non-trivial = at least one fault fired; distinct = scenario signature".to_string()
+        "scenarios as in C02 (front-end x pre-state x operation x value size x auto_sync), sampled by seed; per scenario the operation is run fault-free, then once per (filesystem call issued inside the library call, errno plausible for that call kind: EIO, EACCES, EMFILE, ENFILE, ENOMEM, ESTALE, ENOSPC, EDQUOT, EINTR, EPERM, EROFS, EXDEV, EMLINK as applicable) with exactly that call failing and the operation left to continue. Oracle: Err, or Ok with the effect achieved (after set a fresh lookup returns exactly the new value; after put the key is present; a miss / false only if the key is absent or the errno is ENOENT/ESTALE; ensure's value is stored), no panic other than the documented failed-flush one, tree valid in the C02 sense, no temp file left in .kismet_temp (unless the failing call was its unlink), the re-issued operation and a follow-up battery by fresh processes succeed. On top of the complete single-fault enumeration, up to 24 sampled pairs of failing calls per scenario are run with the same oracle (pairs involving absence errnos, fsync or the existence probe are skipped: their provisos do not compose). evaluations = scenarios; counters give faulted runs; non-trivial = at least one fault fired; distinct = scenario signature".to_string()
     }
     fn runs(&self, tier: Tier) -> u64 {
         match tier {
-            Tier::Quick => 8_000,
+            Tier::Quick => 5_000,
             Tier::Thorough => 350_000,
         }
     }
@@ -188,6 +188,76 @@ impl Check for C18 {
                     v.detail.extend(trace_tail(&ex.w.trace_from(0), 90));
                     out.violation = Some(v);
                     break 'outer;
+                }
+            }
+        }
+        // sampled double faults: two calls of the same run fail
+        if out.violation.is_none() && calls.len() >= 2 {
+            let pairs = 24.min(calls.len() * 2);
+            for _ in 0..pairs {
+                let a = &calls[tape.draw(calls.len() as u64) as usize];
+                let b = &calls[tape.draw(calls.len() as u64) as usize];
+                let (ea, eb) = (errnos_for(a.1, a.2), errnos_for(b.1, b.2));
+                if ea.is_empty() || eb.is_empty() || a.0 == b.0 {
+                    continue;
+                }
+                let e1 = ea[tape.draw(ea.len() as u64) as usize];
+                let e2 = eb[tape.draw(eb.len() as u64) as usize];
+                let (i1, i2) = (a.0, b.0);
+                let fired = std::sync::Arc::new(std::sync::Mutex::new(Vec::<(u64, String, K, i32)>::new()));
+                let f2 = fired.clone();
+                let mut ex = execute(&sc, |w| {
+                    w.sim.lock().injector = Some(Box::new(move |info, _t| {
+                        if info.proc != 0 {
+                            return None;
+                        }
+                        let e = if info.call_index == i1 {
+                            Some(e1)
+                        } else if info.call_index == i2 {
+                            Some(e2)
+                        } else {
+                            None
+                        };
+                        if let Some(e) = e {
+                            f2.lock().unwrap().push((info.call_index, info.raw.to_string(), info.kind, e));
+                        }
+                        e
+                    }));
+                });
+                ex.w.sim.lock().injector = None;
+                let hits = fired.lock().unwrap().clone();
+                if hits.len() < 2 {
+                    continue;
+                }
+                // judge with the clauses that do not depend on which single
+                // call failed: an unlink that failed exempts its temp file
+                let unlinked: Vec<String> = hits.iter().filter(|h| h.2 == K::Unlink).map(|h| ex.w.with_fs(|fs| fs.resolve(&h.1).map(|r| r.canon).unwrap_or(h.1.clone()))).collect();
+                let first = &hits[0];
+                let any_absent = hits.iter().any(|h| h.3 == libc::ENOENT || h.3 == libc::ESTALE);
+                let any_fsync = hits.iter().any(|h| matches!(h.2, K::Fsync | K::Fdatasync));
+                let v = if any_absent || any_fsync || hits.iter().any(|h| h.2 == K::Stat) {
+                    // provisos of the single-fault oracle (absence errnos,
+                    // documented flush panic, probe) are not combined here
+                    None
+                } else {
+                    // if one of the two failing calls was the unlink of a temp
+                    // file, that file is exempt from the leak clause
+                    let kind = if unlinked.is_empty() { first.2 } else { K::Unlink };
+                    judge_fault(&sc, &mut ex, kind, first.0, first.3, true, unlinked.first().map(|s| s.as_str()).unwrap_or(""))
+                };
+                out.steps += ex.w.sim.lock().step;
+                out.count("double_fault_runs", 1);
+                if let Some(mut v) = v {
+                    // a second failing unlink may leave a second temp file
+                    if v.class == "temp-leak" && unlinked.len() > 1 {
+                        continue;
+                    }
+                    v.class = format!("double-{}", v.class);
+                    v.detail.push(sc.desc.clone());
+                    v.detail.push(format!("double fault: {:?}", hits.iter().map(|h| (h.0, h.2, errno_name(h.3))).collect::<Vec<_>>()));
+                    v.detail.extend(trace_tail(&ex.w.trace_from(0), 90));
+                    out.violation = Some(v);
+                    break;
                 }
             }
         }
